@@ -18,6 +18,9 @@
      v_early   - Resume returns at once when nothing is paused (false: original code, Resume
                  always waits for one send from every subscriber)
      v_closep  - Unsubscribe closes PauseCh (original code); false: only ResumeCh is closed
+     v_seq     - Resume receives the acknowledgements one subscriber after the other inside Range
+                 instead of by one receiver goroutine per subscriber (never part of the code: a
+                 "simplification" that deadlocks when workers feed each other)
      v_unsubmutex - Unsubscribe takes the manager mutex too (a repair candidate that the model
                  refutes; never part of the code)
    Executable definitions only; proofs are in PauseProofs.v. *)
@@ -25,9 +28,9 @@ From Coq Require Export List Arith Bool PeanoNat.
 Export ListNotations.
 
 Record variant := V { v_ackctx : bool; v_mutex : bool; v_pmutex : bool; v_early : bool; v_closep : bool;
-                     v_unsubmutex : bool }.
-Definition orig  : variant := V false false false false true false.
-Definition fixed : variant := V true true true true false false.
+                     v_unsubmutex : bool; v_seq : bool }.
+Definition orig  : variant := V false false false false true false false.
+Definition fixed : variant := V true true true true false false false.
 
 (* ---- stage worker (one subscriber) ----
    WRun    in the main select { ctx.Done / PauseCh / input }
@@ -69,22 +72,24 @@ Record state := St {
   holder : option owner;    (* who holds manager.mu (always None without v_mutex) *)
   wk : nat -> wst;
   ct : nat -> cpc;
-  panic : bool              (* send on a closed channel happened: the process is dead *)
+  panic : bool;             (* send on a closed channel happened: the process is dead *)
+  link : nat -> option nat  (* static wiring: worker w passes its items on to worker d's input
+                               channel (unbuffered), as the stages do; None: to the outside *)
 }.
 
 Definition upd {A} (f : nat -> A) (i : nat) (x : A) : nat -> A :=
   fun j => if Nat.eqb j i then x else f j.
 
 Definition set_w (s : state) (w : nat) (x : wst) : state :=
-  St (nw s) (nc s) (paused s) (holder s) (upd (wk s) w x) (ct s) (panic s).
+  St (nw s) (nc s) (paused s) (holder s) (upd (wk s) w x) (ct s) (panic s) (link s).
 Definition set_c (s : state) (c : nat) (x : cpc) : state :=
-  St (nw s) (nc s) (paused s) (holder s) (wk s) (upd (ct s) c x) (panic s).
+  St (nw s) (nc s) (paused s) (holder s) (wk s) (upd (ct s) c x) (panic s) (link s).
 Definition set_paused (s : state) (b : bool) : state :=
-  St (nw s) (nc s) b (holder s) (wk s) (ct s) (panic s).
+  St (nw s) (nc s) b (holder s) (wk s) (ct s) (panic s) (link s).
 Definition set_holder (s : state) (h : option owner) : state :=
-  St (nw s) (nc s) (paused s) h (wk s) (ct s) (panic s).
+  St (nw s) (nc s) (paused s) h (wk s) (ct s) (panic s) (link s).
 Definition set_panic (s : state) : state :=
-  St (nw s) (nc s) (paused s) (holder s) (wk s) (ct s) true.
+  St (nw s) (nc s) (paused s) (holder s) (wk s) (ct s) true (link s).
 
 Definition wset_pc (x : wst) (p : wpc) := W p (w_tok x) (w_pclosed x) (w_rclosed x) (w_sub x) (w_stop x).
 Definition wset_tok (x : wst) (b : bool) := W (w_pc x) b (w_pclosed x) (w_rclosed x) (w_sub x) (w_stop x).
@@ -106,6 +111,10 @@ Definition ptake (v : variant) (s : state) (o : owner) : state :=
 Definition prelease (v : variant) (s : state) : state :=
   if v_pmutex v then set_holder s None else s.
 
+(* may Range go on to the next key?  (sequential collection: only after the pending receive) *)
+Definition visit_ok (v : variant) (aw : list nat) : bool :=
+  negb (v_seq v && match aw with [] => false | _ => true end).
+
 Inductive kind := KPause | KResume.
 
 Inductive label :=
@@ -120,7 +129,8 @@ Inductive label :=
 | LPauseEnd (c : nat)            (* Range finished; [Unlock;] return *)
 (* Resume *)
 | LResumeBegin (c : nat)         (* [Lock; if !isPaused return;] Range starts *)
-| LResumeVisit (c w : nat)       (* Range loads key w: receiver goroutine spawned if present *)
+| LResumeVisit (c w : nat)       (* Range loads key w: receiver goroutine spawned if present
+                                    (v_seq: the receive is done in place, Range goes on after it) *)
 | LHandshake (c w : nat)         (* w's send on ResumeCh meets the receiver of call c *)
 | LRecvClosed (c w : nat)        (* receiver of call c sees ResumeCh of w closed *)
 | LResumeEnd (c : nat)           (* wg.Wait returns; CompareAndSwap(true,false); [Unlock;] return *)
@@ -159,7 +169,19 @@ Definition step (v : variant) (s : state) (l : label) : option state :=
   | LDone w =>
       if w <? nw s then
         match w_pc (wk s w) with
-        | WBusy => Some (set_w s w (wset_pc (wk s w) WRun))
+        | WBusy =>
+            match link s w with
+            | None => Some (set_w s w (wset_pc (wk s w) WRun))
+            | Some d =>
+                (* outputCh <- seed meets the downstream worker's  case seed := <-inputCh *)
+                if (w <? d) && (d <? nw s) then
+                  match w_pc (wk s d) with
+                  | WRun => Some (set_w (set_w s w (wset_pc (wk s w) WRun)) d
+                                        (wset_pc (wk s d) WBusy))
+                  | _ => None
+                  end
+                else None
+            end
         | _ => None
         end
       else None
@@ -223,7 +245,7 @@ Definition step (v : variant) (s : state) (l : label) : option state :=
       if c <? nc s then
         match ct s c with
         | CRRange todo aw =>
-            if memb w todo then
+            if memb w todo && visit_ok v aw then
               if w_sub (wk s w) then Some (set_c s c (CRRange (rem w todo) (w :: aw)))
               else Some (set_c s c (CRRange (rem w todo) aw))
             else None
@@ -326,7 +348,10 @@ Fixpoint run (v : variant) (s : state) (ls : list label) : option state :=
 
 (* n subscribed running workers, m idle controllers, nothing paused *)
 Definition w0 : wst := W WRun false false false true false.
-Definition init (n m : nat) : state := St n m false None (fun _ => w0) (fun _ => CIdle) false.
+Definition init_l (n m : nat) (lk : nat -> option nat) : state :=
+  St n m false None (fun _ => w0) (fun _ => CIdle) false lk.
+(* independent workers *)
+Definition init (n m : nat) : state := init_l n m (fun _ => None).
 
 (* ---- every system label that can possibly be enabled in s (finite) ---- *)
 Definition cands_c (s : state) (c : nat) : list label :=
@@ -361,11 +386,15 @@ Fixpoint quiesce (v : variant) (fuel : nat) (s : state) : state :=
            end
   end.
 
-(* the same scheduler for the correspondence check, where an item lasts until the driver ends it:
-   [LDone] is never picked *)
-Definition is_done (l : label) : bool := match l with LDone _ => true | _ => false end.
+(* the same scheduler for the correspondence check, where an item that leaves the experiment (its
+   worker has no downstream worker) lasts until the driver takes it: that [LDone] is never picked *)
+Definition is_done (s : state) (l : label) : bool :=
+  match l with
+  | LDone w => match link s w with None => true | Some _ => false end
+  | _ => false
+  end.
 Definition pick_h (v : variant) (s : state) : option label :=
-  find (fun l => negb (is_done l) && enabled v s l) (cands s).
+  find (fun l => negb (is_done s l) && enabled v s l) (cands s).
 Fixpoint quiesce_h (v : variant) (fuel : nat) (s : state) : state :=
   match fuel with
   | 0 => s
